@@ -174,7 +174,7 @@ theorem dated_year_yearless_eq (s : DateSpec) (so : DateOffset) (e : DateSpec) (
   have iS : InY (year (S - eo.days)) (S - eo.days) := inY_year _
   have hdist := year_dist iS hs0y (so.days.natAbs + eo.days.natAbs + 6) (by omega) (by omega)
   generalize year (S - eo.days) = y0 at *
-  have hwdef : yearSpan so eo = 3 + (so.days.natAbs + eo.days.natAbs) / 365 := rfl
+  have hwdef : yearSpan so eo = 3 + (so.days.natAbs + eo.days.natAbs) / 365 := yearSpan_small so eo hss hes
   generalize hwg : yearSpan so eo = w at *
   -- the projections of the end
   have mE := projT_stepMono he hey false
